@@ -5,6 +5,8 @@
 From Coq Require Import List NArith ZArith Bool.
 From JV Require Import Bytes FrameBase FrameBaseProofs FrameSpec Split SplitProofs Hdr HdrProofs
   HdrSpec HdrSpecProofs JsonScan JsonScanProofs RawJson RawJsonProofs.
+From RecordUpdate Require Import RecordUpdate.
+From JV Require Import Msg SrvModel SrvC12.
 Import ListNotations.
 Local Open Scope N_scope.
 
@@ -161,3 +163,19 @@ Print Assumptions c12_rawjson_sticky.
 Theorem c12_rawjson_exhausted : forall j, all_ws j -> RawJson.recv_all j = [IErr EEOF].
 Proof. exact rawjson_exhausted. Qed.
 Print Assumptions c12_rawjson_exhausted.
+
+(* ---- the server and a final record delivered together with io.EOF ---- *)
+
+(* SrvModel handles [FMsgEOF i] (record returned WITH io.EOF) exactly like [FMsg i] wherever it
+   looks at a feed: the reader's critical section is the same, LFeed only enqueues it, an idle reader
+   picks it up, LRelRead runs the critical section of a plain record; while the server runs the
+   reader returns to idle and sees the separately fed [FErr SCEOF] next *)
+Theorem c12_server_final_record : forall i s,
+  read_cs (FMsgEOF i) s = read_cs (FMsg i) s /\
+  step_raw s (LFeed (FMsgEOF i)) = Some (s <| ch_in ::= fun q => q ++ [FMsgEOF i] |>, []) /\
+  (forall q, rd s = RIdle -> ch_in s = FMsgEOF i :: q ->
+             settle1 s = Some (s <| rd := RHold (FMsgEOF i) |> <| ch_in := q |>, [])) /\
+  (rd s = RHold (FMsgEOF i) -> step_raw s LRelRead = Some (read_cs (FMsg i) s)) /\
+  (forall s' os, read_cs (FMsgEOF i) s = (s', os) -> rd s' = if running s then RIdle else RExited).
+Proof. exact srv_final_record. Qed.
+Print Assumptions c12_server_final_record.
